@@ -1,9 +1,17 @@
-// second translation unit of the bridge: builders, JSON input, Forth, virtual arrays, partitions
+// registry of additional dispatchers: every further translation unit of the bridge (builders, JSON input, Forth,
+// virtual arrays, partitions, ...) registers one function through a static akb::Registrar object.
 #include "akbridge.h"
 
 namespace akb {
+  static std::vector<DispatchFn>& registry() { static std::vector<DispatchFn> r; return r; }
+
+  Registrar::Registrar(DispatchFn fn) { registry().push_back(fn); }
+
   bool dispatch_more(const std::string& op, const std::vector<int64_t>& h, const std::vector<int64_t>& ia,
                      const std::vector<double>& da, const std::vector<std::string>& ss, AkbResult* out) {
+    for (auto fn : registry()) {
+      if (fn(op, h, ia, da, ss, out)) return true;
+    }
     return false;
   }
 }
